@@ -148,6 +148,33 @@ def run(ctx):
             "time(s) (want {})".format(cls, sorted(counts), sorted(want[cls])),
             line=p2j.node.lineno,
         )
+    # parse side: the declared JSON type has primacy — no constant type may overwrite it afterwards
+    n_over = 0
+    worst = None
+    for kind, stmts in body_paths(j2p.node.body):
+        mapped_at = None
+        for i, st in enumerate(stmts):
+            if isinstance(st, PathFact) or not isinstance(st, ast.Assign):
+                continue
+            if norm(st.targets[0]) != "_param['typ']":
+                continue
+            val = norm(st.value)
+            if "json_type2typ" in val or "_param.pop('type')" in val:
+                mapped_at = i
+            elif mapped_at is not None and isinstance(st.value, ast.Constant):
+                n_over += 1
+                worst = st
+    ctx.ob(
+        "C06.required",
+        j2p,
+        "the declared JSON type is never overwritten by a constant type",
+        n_over == 0,
+        ""
+        if n_over == 0
+        else "on {} path(s) `{}` runs AFTER the type declared by the schema was mapped: the declared type (and with it "
+        "required <=> not Optional) is overridden".format(n_over, short(worst, 60)),
+        line=(worst.lineno if worst is not None else j2p.node.lineno),
+    )
     # ------------------------------------------------------------- meta
     rets = [n for n in iter_own(js.node) if isinstance(n, ast.Return) and isinstance(n.value, ast.Dict)]
     ctx.need(rets, "json_schema() no longer returns a dict literal")
@@ -217,6 +244,17 @@ def run(ctx):
         )
         if ok_shape:
             arg = v.args[0]
+            if isinstance(arg, ast.Call) and norm(arg.func) == "map" and len(arg.args) == 2:
+                ctx.ob(
+                    "C06.pattern",
+                    p2j,
+                    "members joined as written: " + short(arg, 40),
+                    False,
+                    "Literal members are transformed by `{}` before being joined, but the parser splits the pattern "
+                    "and takes the pieces verbatim: members do not come back as they were".format(norm(arg.args[0])),
+                    line=v.lineno,
+                )
+                arg = arg.args[1]
             srt = isinstance(arg, ast.Call) and norm(arg.func) == "sorted"
             if isinstance(arg, ast.Name):
                 ds = local_defs(p2j).get(arg.id, [])
